@@ -25,6 +25,13 @@ CLAIMS = {
              "twice in a row; integer/real classification equals the §7.3.3 grammar for every regular token; hex strings decode as "
              "the reference decoder says; 'stream' EOL handling. Object-level parsing (#xx names, n g R look-ahead, containers) is Out.",
         design_ref="§5 C03", note=NOTE, technique=BMC),
+    "C04": dict(
+        text="Strings and names only, by composition: (a) for every byte string up to the bound the token PdfString::serialize "
+             "writes is decoded to the same bytes by a reference literal/hex string decoder, and for every ASCII name of 1-2 characters "
+             "(and every 2-byte UTF-8 character) serialize_name writes a token of regular characters whose #xx decoding is the name; "
+             "serialising never panics; (b) the real string lexers agree with the same reference decoders (C03 obligations strlex_*). "
+             "Numbers, arrays, dictionaries, streams and the '#xx' decoding inside the object parser are Out.",
+        design_ref="§5 C04", note=NOTE, technique=BMC + " (serializer vs reference decoder; composition with the lexer-vs-reference obligations)"),
     "C05": dict(
         text="For every input inside the bounds the real ASCIIHex, ASCII85 and RunLength decoders return what a reference decoder "
              "written from ISO 32000-1 returns whenever that accepts the input, never panic otherwise; PNG un-prediction equals "
@@ -96,7 +103,6 @@ NOT_APPLICABLE = {
 # properties planned but not yet registered are listed as not applicable until their check exists
 PENDING = {
     "C18": "check under construction in this round (kernel-level obligations per DESIGN.md §5); not claimed until it discharges",
-    "C04": "check under construction in this round (kernel-level obligations per DESIGN.md §5); not claimed until it discharges",
 }
 NOT_APPLICABLE.update(PENDING)
 
